@@ -329,8 +329,9 @@ fn indent(s: &str, n: usize) -> String {
     s.lines().map(|l| if l.trim().is_empty() { String::new() } else { format!("{pad}{}", l.trim_end()) }).collect::<Vec<_>>().join("\n")
 }
 
-fn subst_i(txt: &str, v: Option<&String>, hi: Option<&String>) -> String {
+fn subst_i(txt: &str, v: Option<&String>, hi: Option<&String>, out: Option<&String>) -> String {
     let t = match hi { Some(h) if !h.is_empty() => txt.replace("$hi", &format!("({h})")), _ => txt.to_string() };
+    let t = match out { Some(o) => t.replace("$out", o), _ => t };
     match v { Some(v) if !v.is_empty() => t.replace("$i", v), _ => t }
 }
 
@@ -342,6 +343,7 @@ fn splice(printed: &str, d: &Directive, nloops: usize, nrets: usize) -> Result<S
     let mut out: Vec<String> = Vec::new();
     let mut loop_var: BTreeMap<usize, String> = BTreeMap::new();
     let mut loop_hi: BTreeMap<usize, String> = BTreeMap::new();
+    let mut loop_out: BTreeMap<usize, String> = BTreeMap::new();
     while i < lines.len() {
         let t = lines[i].trim().to_string();
         if t == "__vx_hdr!();" {
@@ -378,6 +380,14 @@ fn splice(printed: &str, d: &Directive, nloops: usize, nrets: usize) -> Result<S
                 // `$hi`: the loop's upper bound as written after `..` (for-range loops) or after `<` (while loops)
                 let hi: String = if let Some(p) = h.find("..") { h[p + 2..].trim().to_string() } else if let Some(p) = h.find('<') { h[p + 1..].trim().to_string() } else { String::new() };
                 loop_hi.insert(k, hi.clone());
+                // `$out`: the accumulator the normaliser declared immediately before this loop (`let mut __out_x ..` / `let mut __acc_x ..`)
+                if let Some(pl) = out.last() {
+                    let t = pl.trim_start();
+                    if let Some(rest) = t.strip_prefix("let mut __") {
+                        let name: String = rest.chars().take_while(|c| c.is_alphanumeric() || *c == '_').collect();
+                        if name.starts_with("out") || name.starts_with("acc") { loop_out.insert(k, format!("__{name}")); }
+                    }
+                }
                 if let Ok(pth) = std::env::var("VX_LOOPVARS") {
                     use std::io::Write;
                     if let Ok(mut f) = std::fs::OpenOptions::new().create(true).append(true).open(pth) {
@@ -389,7 +399,7 @@ fn splice(printed: &str, d: &Directive, nloops: usize, nrets: usize) -> Result<S
             out.push(head);
             if let Some(ls) = d.loops.get(&k) {
                 if !ls.invariant.trim().is_empty() {
-                    out.push(indent(&subst_i(&ls.invariant, loop_var.get(&k), loop_hi.get(&k)), ind + 4));
+                    out.push(indent(&subst_i(&ls.invariant, loop_var.get(&k), loop_hi.get(&k), loop_out.get(&k)), ind + 4));
                 }
                 out.push(format!("{}{{", " ".repeat(ind)));
             } else {
@@ -399,21 +409,21 @@ fn splice(printed: &str, d: &Directive, nloops: usize, nrets: usize) -> Result<S
             if let Some(ls) = d.loops.get(&k) {
                 if !ls.body_prologue.trim().is_empty() {
                     let ind = lines[i].len() - lines[i].trim_start().len();
-                    out.push(indent(&subst_i(&ls.body_prologue, loop_var.get(&k), loop_hi.get(&k)), ind));
+                    out.push(indent(&subst_i(&ls.body_prologue, loop_var.get(&k), loop_hi.get(&k), loop_out.get(&k)), ind));
                 }
             }
         } else if let Some(k) = marker_arg(&t, "__vx_loop_end") {
             if let Some(ls) = d.loops.get(&k) {
                 if !ls.body_epilogue.trim().is_empty() {
                     let ind = lines[i].len() - lines[i].trim_start().len();
-                    out.push(indent(&subst_i(&ls.body_epilogue, loop_var.get(&k), loop_hi.get(&k)), ind));
+                    out.push(indent(&subst_i(&ls.body_epilogue, loop_var.get(&k), loop_hi.get(&k), loop_out.get(&k)), ind));
                 }
             }
         } else if let Some(k) = marker_arg(&t, "__vx_after_loop") {
             if let Some(ls) = d.loops.get(&k) {
                 if !ls.after.trim().is_empty() {
                     let ind = lines[i].len() - lines[i].trim_start().len();
-                    out.push(indent(&subst_i(&ls.after, loop_var.get(&k), loop_hi.get(&k)), ind));
+                    out.push(indent(&subst_i(&ls.after, loop_var.get(&k), loop_hi.get(&k), loop_out.get(&k)), ind));
                 }
             }
         } else if let Some(k) = marker_arg(&t, "__vx_before_ret") {
